@@ -11,6 +11,7 @@ import ast
 import importlib
 import inspect
 import os
+from ..repo_root import REPO
 
 HELPERS = {"rand_argmax": 1, "rand_argmin": 1, "simple_batch": 1, "majority_vote": 4, "_greedy_sampling": None, "k_greedy_center": 3,
            "batch_bald": None, "_bootstrap_estimators": None, "_conditional_expect": None, "_cross_entropy": None}
@@ -18,11 +19,11 @@ GLOBAL_OK = {"RandomState", "default_rng", "Generator", "get_state", "set_state"
 
 
 def module_name(path):
-    rel = os.path.relpath(path, "/repo")[:-3].replace(os.sep, ".")
+    rel = os.path.relpath(path, REPO)[:-3].replace(os.sep, ".")
     return rel[:-9] if rel.endswith(".__init__") else rel
 
 
-def scan(root="/repo/skactiveml"):
+def scan(root=REPO + "/skactiveml"):
     sites = []
     for dp, dn, fs in os.walk(root):
         if "tests" in dp.split(os.sep) or "visualization" in dp.split(os.sep):
@@ -52,7 +53,7 @@ def scan(root="/repo/skactiveml"):
                 if tested is not None and isinstance(tested, (ast.Name, ast.Attribute)):
                     nm = tested.id if isinstance(tested, ast.Name) else tested.attr
                     if "random_state" in nm or nm in ("seed", "random_seed"):
-                        sites.append((4, os.path.relpath(path, "/repo"), funcs.get(id(node), "<module>"), node.lineno,
+                        sites.append((4, os.path.relpath(path, REPO), funcs.get(id(node), "<module>"), node.lineno,
                                       f"seed chosen by truthiness: {ast.unparse(node)[:60]}"))
             for node in ast.walk(tree):
                 if not isinstance(node, ast.Call):
@@ -61,7 +62,7 @@ def scan(root="/repo/skactiveml"):
                 f_ = node.func
                 kws = {k.arg: k.value for k in node.keywords if k.arg}
                 has_star = any(k.arg is None for k in node.keywords)
-                where = (os.path.relpath(path, "/repo"), fn, node.lineno)
+                where = (os.path.relpath(path, REPO), fn, node.lineno)
                 # kind 0: np.random.<draw>
                 if isinstance(f_, ast.Attribute) and isinstance(f_.value, ast.Attribute) and f_.value.attr == "random" and \
                         isinstance(f_.value.value, ast.Name) and f_.value.value.id in ("np", "numpy") and f_.attr not in GLOBAL_OK:
